@@ -12,7 +12,7 @@ S->C: Convolution.tla enumerates (frame, odd kernel shape, kernel variant, mask 
       convolutions and in a simulation), and compared with Convolver(mask, that same object).
       Two further instance kinds of the bounded machine: STRUCTURED kernels (every pattern of zero / cancelling /
       generic first, last and inner rows and columns, Sobel / Prewitt / Laplacian / diagonal kernels, single entries,
-      zero-padded kernels; operator extraction, image, basis matrix, whole frame) and SIMULATION instances (every
+      zero-padded kernels; operator extraction, basis matrix, whole frame + Convolver of the same kernel) and SIMULATION instances (every
       combination of the simulator options that keep the data noise-free: background sky 0 / small / large / negative,
       sky subtracted or left in, three PSF normalisation routes, three noise-map settings); every other instance runs
       simulate -> fit with one seeded combination.
@@ -112,8 +112,8 @@ def sim_families(quick):
 
 # Convolution!SimOptionSet: every combination of the simulator options that keep the simulated data noise-free
 SIM_OPTIONS = [{"sky": sky, "subtract": sub, "norm": norm, "noise": noise}
-               for sky in (0, 3, 64, -1) for sub in (True, False) for norm in ("raw", "unit_norm", "unit_asis")
-               for noise in ("const1", "const8th", "poisson")]
+               for sky in (0, 3, 64, -1, -200) for sub in (True, False) for norm in ("raw", "unit_norm", "unit_asis", "raw_asis")
+               for noise in ("const1", "const8th", "poisson") if not (noise == "poisson" and sky < -1)]
 N_SIM_OPTIONS = len(SIM_OPTIONS)
 
 
@@ -310,7 +310,7 @@ def records_for(inst, seed=0):
         return {"img": nat.ravel().astype(int).tolist(), "out": alpha(out, KS * IS), "outn": alpha(outn, KS * IS),
                 "junk_ok": bool(out.shape == out2.shape and np.array_equal(out, out2))}
 
-    if variant != "sim":
+    if full_set:  # (structured kernels: the extracted operator and the basis matrix already pin both code paths)
         guarded("image", image, img=[], out=[], outn=[], junk_ok=False)
 
     # ---------------- mapping matrices ------------------------------------------------------------
@@ -411,13 +411,17 @@ def records_for(inst, seed=0):
                 kraw, q = pow2_kernel(kh, kw, rng if inst.get("random") else None)
             if q & (q - 1) or min(kraw) < 0:
                 raise core.MachineryError(f"gamma: simulation kernel {kraw} is not non-negative with a power-of-two sum")
-            rec = {"k": kraw, "sky": int(opt["sky"]), "subtract": bool(opt["subtract"]), "norm": opt["norm"], "noise": opt["noise"]}
+            rec = {"k": kraw, "q": q, "sky": int(opt["sky"]), "subtract": bool(opt["subtract"]), "norm": opt["norm"], "noise": opt["noise"]}
             raw = np.array(kraw, dtype=float).reshape(kh, kw)
             if opt["norm"] == "raw":
                 # unnormalised kernel from the constructor; simulator and dataset normalise it (exact: the sum is 2^p)
                 mode, psf, normalize = "fresh", aa.Kernel2D.no_mask(values=raw, pixel_scales=ps), True
             elif opt["norm"] == "unit_norm":
                 mode, psf, normalize = "fresh", aa.Kernel2D.no_mask(values=raw / q, pixel_scales=ps), True
+            elif opt["norm"] == "raw_asis":
+                # unnormalised kernel taken as it is: the effective kernel is raw = (q * raw) in data units of 1/q
+                mode, psf, normalize = "fresh", aa.Kernel2D.no_mask(values=raw, pixel_scales=ps), False
+                rec["k"] = [int(v) * q for v in kraw]
             else:
                 # unit-sum kernel taken as it is; 4 times of 5 an object derived from a used base kernel
                 mode = HISTORIES[int(rng.integers(0, len(HISTORIES)))]
@@ -426,7 +430,10 @@ def records_for(inst, seed=0):
             include, noise_value, exposure = {"const1": (False, 1.0, 1.0), "const8th": (False, 0.125, 1.0),
                                               "poisson": (True, 0.1, 64.0)}[opt["noise"]]
             sky = opt["sky"] / q  # data units are 1/q
-            nat = rng.integers(2, 10, size=(h, w))  # >= 2: convolved image + sky stays positive (Poisson deviates are drawn)
+            if include:  # Poisson deviates are drawn from image + sky: keep it positive (entries >= 2, sky >= -1 unit)
+                nat = rng.integers(2, 10, size=(h, w))
+            else:
+                nat = rng.integers(-9, 10, size=(h, w))
             image = aa.Array2D.no_mask(values=nat.astype(float), pixel_scales=ps)
             sim = aa.SimulatorImaging(exposure_time=exposure, background_sky_level=sky, subtract_background_sky=bool(opt["subtract"]),
                                       psf=psf, normalize_psf=normalize, add_poisson_noise_to_data=False,
@@ -440,6 +447,7 @@ def records_for(inst, seed=0):
             data = np.array(masked.data.slim)
             model = np.array(model.slim)
             left = 0.0 if opt["subtract"] else sky  # the sky declared to be left in the data
+            rec["psf_kept"] = bool(np.array_equal(np.array(masked.psf.native), np.array(sim.psf.native)))
             rz = bool(data.shape == model.shape and np.all((data - left) - model == 0.0))
             rec.update({"img": nat.ravel().astype(int).tolist(), "data": alpha(data, 1.0 / q), "model": alpha(model, 1.0 / q),
                         "resid_zero": rz})
@@ -454,7 +462,7 @@ def records_for(inst, seed=0):
     else:
         opts = [SIM_OPTIONS[int(rng.integers(0, len(SIM_OPTIONS)))]]
     for opt in opts:
-        guarded("simfit", simfit(opt), history="", sky=0, subtract=True, norm="", noise="", img=[], data=[], model=[], resid_zero=False)
+        guarded("simfit", simfit(opt), history="", q=1, psf_kept=False, sky=0, subtract=True, norm="", noise="", img=[], data=[], model=[], resid_zero=False)
     for r in recs:
         r["variant"] = variant
     return recs
@@ -626,20 +634,20 @@ def run(ctx):
     ex_op = next(r for r in recs if r["api"] == "operator" and len(r["u"]) >= 3 and r["kh"] != r["kw"])
     ctx.sample({"instance": _slim_inst(insts[ex_op["inst"]]), "operator_record": {k: ex_op[k] for k in ("bl", "opi", "opb", "real_ok")}})
     ctx.sample({"random_instance_record": next(r for r in recs if r["api"] == "image" and r["variant"] == "random")})
-    rejects = validate(ctx, recs, insts, "C03", chunk=2000 if quick else 4000)
+    rejects = validate(ctx, recs, insts, "C03", chunk=2600 if quick else 4000)
     cross_check(recs, insts, rejects)
     ctx.note(f"{len(tl)} enumerated instances + {len(rnd)} random instances -> {len(recs)} records validated by Trace_Convolution")
     ctx.assumptions = [
         "floats are small integers times 2^-12 (kernel) and 2^-12 / 1 (images, matrices): IEEE arithmetic is exact, alpha rejects "
         "anything farther than 1e-6 from the lattice",
         "arbitrary real payloads are covered through the extracted couplings (payload-independent clause, 1e-12 relative)",
-        "simulate->fit uses positive images and non-negative kernels (the simulator draws Poisson deviates from image + sky "
-        "even with noise off, so a negative sky is admitted only while image + sky >= 0) whose entries sum to a power of two, "
-        "so both normalisations are exact; sky levels are multiples of the data unit 1/sum",
+        "simulate->fit uses non-negative kernels whose entries sum to a power of two (both normalisations exact), sky levels that "
+        "are multiples of the data unit 1/sum, signed images when no Poisson deviates are drawn and positive images with "
+        "image + sky >= 0 when the noise map includes Poisson noise (numpy refuses negative rates: not admitted by the API)",
         "with subtract_background_sky=False the documented behaviour ('otherwise it is left in') is judged: data = convolved "
         "image + sky, fitted with zero residual once that declared sky is removed; the noise map itself is not judged",
-        "normalize_psf=False is exercised with unit-sum kernels only: Imaging re-normalises the PSF by default "
-        "(use_normalized_psf=True), so a non-unit-sum kernel is by design a different kernel in the dataset",
+        "normalize_psf=False is exercised with unit-sum kernels and with unnormalised kernels (data and fit must then both use "
+        "the unnormalised kernel; open finding: apply_mask renormalises it)",
         "Kernel2D.convolved_array_from is judged on unmasked input arrays (its use in the simulator)",
         "kernel histories: the judged kernel's values are asserted (gamma) to be exactly the intended ones before it is used",
     ]
